@@ -112,7 +112,7 @@ def check(cx):
     e = calls[0]
     own = sym.mk_eq(CONN_NICK, TGT)
     ok, m = entails(e.pc, own)
-    if not ok or e.data['args'][2:4] != [STATE, TGT]:
+    if not ok or TGT not in e.data['args']:
         r2.violation('process_mode|foreign-user-mode', 'user MODE can be applied to a nick other than the own one', loc=cx.loc(e.node))
     mreps = replies(wm)
     r2.instance('502 for foreign registered targets')
@@ -120,7 +120,7 @@ def check(cx):
     if not e502 or not all(entails(x.pc, And(Not(own), has(USERS, TGT)))[0] for x in e502):
         r2.violation('process_mode|502', '502 is not the answer to MODE on another registered user', loc=fm)
     fu = cx.fn('process_mode_user')
-    wu = cx.walk(fu, args=[SELF, CONN, STATE, TGT, P('modes')], key='c11')
+    wu = cx.walk(fu, args=cx.callsite_args(fm, [SELF, CONN, TGT, P('modes')], 'process_mode_user'), key='c11')
     for e, x in effects(wu, prog):
         p = path_of(x['place'])
         desc = '%s %s' % (x['op'], show_term(x['place']))
